@@ -37,6 +37,28 @@ CHECKS = {
              "recorded plans (log spacing re-derived per bin from the rule's own regime conditions); JdesSearch.tla is checked for every scheduler function of its scope and every run is "
              "replayed into find_Jdes_binary_search; real searches and forced plans are validated by JdesTrace.tla.",
         note="As C02; the log-spacing clause is evaluated for N<=512 with one quantum of slack; the 10 % bin-count clause grants one bin below 10 bins."),
+    "C05": dict(
+        level=MC, design="DESIGN.md §3 C05",
+        technique="TLA+ model (Analyzer.tla over KernelOps.tla) checked by TLC + replay of every scenario into the real SpectrumAnalyzer + TLC trace validation where the spec recomputes the reference estimator (AnalyzerTrace.tla)",
+        text="TLC walks plan()/compute() for every scenario of the scope (plan templates with repeated and distinct lengths, start-vector variants, frequency rotations, records, windows, orders, "
+             "modes, bands incl. empty/invalid) and checks that every kernel call uses its own bin and every stored result is the reference estimator of that bin; each scenario is injected "
+             "through scheduler=/win= callables and compared field by field on the numba and numpy backends; single-bin analyses of lattice records are validated by AnalyzerTrace.tla, which "
+             "evaluates DefStats for the segmentation the result reports.",
+        note="Trusts TLC, the lattice (exact expectations), injection through the public scheduler/win parameters; Kaiser construction is bound in C12."),
+    "C13": dict(
+        level=MC, design="DESIGN.md §3 C13",
+        technique="TLA+ model (Input.tla) checked by TLC in both sanitising variants + materialisation of every model scenario as a real NumPy object run through the analyzer",
+        text="The ownership/aliasing state machine is model-checked: with in-place sanitising TLC produces the aliasing counterexample (vacuity guard), with copy-on-sanitise CallerUntouched holds; "
+             "every scenario (layout x dtype x memory order x non-finite kind x positions) is materialised and run on both CPU backends and several detrend orders: caller bytes unchanged, results "
+             "bit-equal to the zero-filled canonical record; degenerate finite records give finite outputs in three access orders.",
+        note="Trusts TLC and NumPy's aliasing semantics as modelled (ascontiguousarray returns its argument when already C-contiguous float64)."),
+    "C20": dict(
+        level=MC, design="DESIGN.md §3 C20",
+        technique="TLA+ model (Result.tla: exact definition table, None table, interpolation, export, copy/pickle histories) checked by TLC + replay of every result and history on real SpectrumResult objects",
+        text="Every attribute is defined as an exact rational/complex function of the base estimates; TLC checks the identities on the whole (coherence, n, magnitude, phase) grid and enumerates "
+             "all operation histories (attribute access, interpolated measurement, DataFrame export, copy, deepcopy, pickle) up to a bound; every case is executed on a real SpectrumResult and "
+             "each returned value, export column and measurement is compared, and previously returned arrays are checked for mutation.",
+        note="Trusts TLC; results are built through the public constructor; transcendental attributes are compared through their defining relation."),
 }
 
 NOT_YET = "no check registered yet in this round (specification and driver under construction; see DESIGN.md §8)"
